@@ -1,6 +1,8 @@
 /-
 Decidable well-formedness predicates on a parity-check matrix under which the union-find
-internals are proved correct (`Properties/C05UnionFind.lean`).  Executable, no Mathlib (the
+internals are proved correct (`multigraphLike` / `closedMultigraph`: the hypotheses of the
+theorems since the repair of `Peeling_Tree.peel`; `graphLike` / `closedGraph`: the special case
+without parallel edges, which was the hypothesis before the repair) (`Properties/C05UnionFind.lean`).  Executable, no Mathlib (the
 driver evaluates them on the matrices of the correspondence: op `uf.class`).
 -/
 import PanqecVerif.Model.UnionFind
@@ -21,5 +23,19 @@ def graphLike (H : Mat) : Bool :=
 /-- graph-like and without dangling edges: every column has weight 0 or 2 -/
 def closedGraph (H : Mat) : Bool :=
   graphLike H && (List.range (ncols H)).all (fun q => cnt H.length (fun s => hb H s q) != 1)
+
+/-- rectangular 0/1 matrix whose Tanner graph is a MULTIgraph (possibly with dangling edges):
+    every column has weight ≤ 2; two different rows may share several columns (parallel edges:
+    `Toric2DCode` with a side of length 2), but fewer than 256 — the adjacency test of
+    `_build_tree` is the `uint8` product `H @ H.T`, which wraps to zero at 256 shared columns -/
+def multigraphLike (H : Mat) : Bool :=
+  H.all (fun r => decide (r.length = ncols H) && r.all (fun x => decide (x ≤ 1))) &&
+  (List.range (ncols H)).all (fun q => decide (cnt H.length (fun s => hb H s q) ≤ 2)) &&
+  (List.range H.length).all (fun i => (List.range H.length).all fun j =>
+    decide (i = j) || decide (cnt (ncols H) (fun q => hb H i q && hb H j q) < 256))
+
+/-- multigraph-like and without dangling edges: every column has weight 0 or 2 -/
+def closedMultigraph (H : Mat) : Bool :=
+  multigraphLike H && (List.range (ncols H)).all (fun q => cnt H.length (fun s => hb H s q) != 1)
 
 end Panqec.UF
